@@ -347,3 +347,6 @@ def run(ctx):
     fx9 = ctx.extract(c09.units(ctx.tier))
     ctx.rule("R9.1", "see C09")
     c09.r9_1(ctx, fx9)
+    # lazy updates applied to const arguments (operator== sorts both operands) must keep the cached claims honest
+    from rules import c01
+    c01.r1_5(ctx, ctx.extract([F.lib_unit("Polyhedron_nonpublic.cc"), F.lib_unit("Polyhedron_public.cc"), F.lib_unit("Polyhedron_chdims.cc")]))
